@@ -335,7 +335,7 @@ def check_property(pid, tier, seed, replay_only=None):
             if kf_ids: cmd += ['--kf', ','.join(kf_ids)]
             if u.get('isolate'): cmd += ['--isolate']
             cmd += u.get('args', []) + cfg.get('args', [])
-            procs.append((u, sh, cmd, out, crumb, cfg.get('timeout', 1500)))
+            procs.append((u, sh, cmd, out, crumb, cfg.get('timeout', 1500 if tier == 'quick' else 5400)))
     results = []
     fuzz_results = []
     with cf.ThreadPoolExecutor(max_workers=NCPU) as ex:
